@@ -32,8 +32,29 @@ func (m Mode) String() string {
 
 var Modes = []Mode{{false, false}, {true, false}, {false, true}, {true, true}}
 
+// pbRebuildTokens: every builder made by newPB carries a token interceptor that lets the base lexer read the
+// lexeme with next() and then hands out a token of its own, rebuilt through the lexer's exported constructor
+// NewTokenAt with the same type, literal and start (what a plugin does that retags or wraps tokens that way).
+// Identifier and keyword tokens are rebuilt. Every oracle keeps its meaning: the rebuilt token stands for the
+// same lexeme, so the token stream, and everything derived from it, has to be what the property says.
+var pbRebuildTokens bool
+
+func rebuildTokens(lb *lexer.Builder) {
+	lb.UseTokenInterceptor(func(l *lexer.Lexer, next func() token.Token) token.Token {
+		t := next()
+		switch t.Type {
+		case token.IDENT, token.LET, token.FUNCTION, token.IF, token.ELSE, token.WHILE, token.FOR, token.RETURN:
+			return l.NewTokenAt(t.Type, t.Literal, t.Start.Line, t.Start.Column)
+		}
+		return t
+	})
+}
+
 func newPB(m Mode) *parser.Builder {
 	pb := parser.NewBuilder(lexer.NewBuilder())
+	if pbRebuildTokens {
+		rebuildTokens(pb.LexerBuilder)
+	}
 	if m.Tolerant {
 		pb.WithTolerantMode(true)
 	}
@@ -336,11 +357,12 @@ func processWarmup(c *core.Ctx) {
 	}
 	type role struct{ pre, in, post bool }
 	for _, r := range []role{{false, false, true}, {false, true, false}, {true, false, false}, {true, false, true}, {true, true, false}} {
-		for _, builtin := range []bool{false, true} {
+		for _, bt := range []token.Type{token.ILLEGAL, token.NOT, token.MODULO} {
+			builtin := bt != token.ILLEGAL
 			lb := lexer.NewBuilder()
 			ty := lb.RegisterTokenType("warm")
 			if builtin {
-				ty = token.NOT
+				ty = bt // a built-in token: a unary operator token, a binary operator token (occupied roles are refused)
 			} else {
 				lb.UseTokenInterceptor(func(l *lexer.Lexer, next func() token.Token) token.Token {
 					t := next()
@@ -364,7 +386,7 @@ func processWarmup(c *core.Ctx) {
 				pb.RegisterPostfixOperator(ty, func(tok token.Token, left ast.Expression) ast.Expression { return left })
 			}
 			pb.UseStatementInterceptor(func(p *parser.Parser, next func() ast.Statement) ast.Statement { return next() })
-			for _, src := range []string{"a W b; W a; a W", "a ! b; a !", "f(a)\n(b)"} {
+			for _, src := range []string{"a W b; W a; a W", "a ! b; a !", "a % b; a %; a * b %", "f(a)\n(b)"} {
 				c.Cur(fmt.Sprintf("warm-up: %q with a plugin token (prefix=%v infix=%v postfix=%v, built-in token=%v)", src, r.pre, r.in, r.post, builtin))
 				o := parseWith(pb, src)
 				if o.Prog != nil && o.Err == nil {
@@ -372,7 +394,7 @@ func processWarmup(c *core.Ctx) {
 				}
 			}
 			// a plain parser right after each plugin configuration (state must not have leaked)
-			for _, src := range []string{"a !b", "a W b", "! a ! b"} {
+			for _, src := range []string{"a !b", "a W b", "! a ! b", "a * b % c"} {
 				c.Cur(fmt.Sprintf("warm-up: plain parser on %q after a plugin builder (prefix=%v infix=%v postfix=%v, built-in token=%v) was built", src, r.pre, r.in, r.post, builtin))
 				parseMode(src, Mode{})
 			}
